@@ -38,7 +38,7 @@ fn call(entry: u64, s: &str) -> (u64, Option<String>) {
         },
         2 => r(GRLParser::parse_rules(s)),
         3 => r(GRLParser::parse_with_modules(s)),
-        4 => r(bw::query::QueryParser::parse(s)),
+        4 => match bw::query::QueryParser::parse(s) { Ok(g) => (0, g.expression.as_ref().map(|e| Sx::l(vec![Sx::b(g.is_negated), enc_bexp(e)]).show())), Err(_) => (1, None) },
         5 => match bw::expression::ExpressionParser::parse(s) { Ok(e) => (0, Some(enc_bexp(&e).show())), Err(_) => (1, None) },
         6 => r(bw::grl_query::GRLQueryParser::parse(s)),
         7 => r(bw::grl_query::GRLQueryParser::parse_queries(s)),
@@ -173,7 +173,8 @@ pub fn gen(tier: Tier, rng: &mut Rng) -> Vec<Sx> {
     let qalpha: Vec<&str> = vec!["a", "b", "X", "_", ".", "1", "0", "42", "-", "\"", "\\", "!", "(", ")", "?", "&&", "||", "==", "!=", ">=", "<=", ">", "<", "=", "&", "|",
         " ", "\t", "true", "false", "null", "n", "t", "é", "٣", "½", "\u{3000}", "💥", "ß", "1.5", "-7", "1.", ".5", "1.2.3", "--1", "truex", "null_", "9223372036854775808", "1e5"];
     let n4 = if tier == Tier::Thorough { 150000 } else { 5000 };
-    for _ in 0..n4 { let k = rng.range(0, 12); let s: String = (0..k).map(|_| *rng.pick(&qalpha)).collect(); v.push(mk(5, &s)); }
+    for _ in 0..n4 { let k = rng.range(0, 12); let s: String = (0..k).map(|_| *rng.pick(&qalpha)).collect(); v.push(mk(5, &s));
+        if rng.chance(1, 4) { let q = format!("{}{}", rng.pick(&["", "NOT ", " NOT  ", "NOT", "not "]), s); v.push(mk(4, &q)); } }
     for s in ["User.IsVIP == true && Order.Total > 1000 || !(User.IsBanned == true)", "(a == true || b == true) && c == \"x y\" && ?X != 42.5", "a == \"q\\\"r\\n\" || !(!b)", "  x  "] {
         let cs: Vec<char> = s.chars().collect();
         for k in 0..=cs.len() { let pre: String = cs[..k].iter().collect(); v.push(mk(5, &pre)); let suf: String = cs[k..].iter().collect(); v.push(mk(5, &suf)); }
@@ -191,7 +192,7 @@ pub fn run(case: &Sx) -> (Sx, String) {
     std::panic::set_hook(Box::new(|info| { if let Some(l) = info.location() { *LAST_LOC.lock().unwrap() = format!("{}:{}", l.file(), l.line()); } }));
     let r = std::panic::catch_unwind(|| call(entry, &s));
     match r {
-        Ok((class, leaf)) => (Sx::l(vec![Sx::n(class), match leaf { Some(l) if entry == 0 => Sx::l(vec![Sx::s(&l)]), Some(l) if entry == 5 => Sx::l(vec![Sx::parse(&l)]), _ => Sx::l(vec![]) }]),
+        Ok((class, leaf)) => (Sx::l(vec![Sx::n(class), match leaf { Some(l) if entry == 0 => Sx::l(vec![Sx::s(&l)]), Some(l) if entry == 5 || entry == 4 => Sx::l(vec![Sx::parse(&l)]), _ => Sx::l(vec![]) }]),
                               format!("{} {}", ENTRIES[entry as usize], if class == 0 { "ok" } else { "err" })),
         Err(e) => { let msg = if let Some(s) = e.downcast_ref::<String>() { s.clone() } else if let Some(s) = e.downcast_ref::<&str>() { s.to_string() } else { "?".into() };
                     (Sx::l(vec![Sx::n(if LAST_LOC.lock().unwrap().contains("/rexile-") { 3 } else { 2 }), Sx::l(vec![])]), format!("{} PANIC at {} {}", ENTRIES[entry as usize], LAST_LOC.lock().unwrap(), msg.chars().take(60).collect::<String>().replace('\n', " "))) }
